@@ -28,6 +28,8 @@ FT = [
     ('arr', sx.tarray(sx.tid('u8'), sx.cpath(['N'])), '[u8; N]', ['[0u8, 1]', '[1u8, 0]'], ('N',)),
     ('opt', sx.tgen('Option', T), 'Option<T>', ['None', 'Some(5u16)'], ('T',)),
     ('unit', sx.ttuple([]), '()', ['()'], ()),
+    # a type whose `==` is not reflexive (only where no Eq / Ord / Hash is derived): `x == x` must be computed
+    ('f64', sx.tid('f64'), 'f64', ['0.5f64', 'f64::NAN'], ()),
 ]
 TRAITS = ['Clone', 'Debug', 'Default', 'PartialEq', 'Eq', 'PartialOrd', 'Ord', 'Hash']
 SUPER = {'Eq': ['PartialEq'], 'PartialOrd': ['PartialEq'], 'Ord': ['Eq', 'PartialOrd', 'PartialEq']}
@@ -68,7 +70,9 @@ class C12(Prop):
             for vi in range(nvar):
                 kind = rng.choice(['named', 'tuple', 'unit'])
                 n = 0 if kind == 'unit' else rng.randrange(0, 5)
-                variants.append((kind, [rng.choice([i for i in range(len(FT)) if not (no_arr and FT[i][0] == 'arr')])
+                no_float = bool(set(traits) & {'Eq', 'Ord', 'Hash'})
+                variants.append((kind, [rng.choice([i for i in range(len(FT)) if not (no_arr and FT[i][0] == 'arr')
+                                                    and not (no_float and FT[i][0] == 'f64')])
                                         for _ in range(n)]))
             if unsized:
                 kind = rng.choice(['named', 'tuple'])
